@@ -2,23 +2,27 @@
 (* C10: generator of dictionary operation histories with the observations DictAbs prescribes. *)
 EXTENDS Integers, Sequences, FiniteSets, TLC, Json
 CONSTANTS Vars, Keys, Vals, MaxOps,
+          Focus,     \* TRUE: every history works on two keys and two values chosen at the start (so that add / remove / find
+                     \* of the SAME key meet within one history); FALSE: all keys and values at every step
           NoPair     \* "key|value" texts that are not generated: a pair of an integer and a real cannot be written in Klong
                      \* without both becoming reals (the numeric homogenisation recorded under C01)
 Lit == << <<"i:1", "i:10">>, <<"s:s1", "s:v">> >>     \* the pairs of the literal :{[1 10] ["s1" "v"]}
 A == INSTANCE DictAbs
-VARIABLES mon, hist
-Init == mon = A!MonInit(Vars, {}) /\ hist = <<>>
-Add(e) == mon' = A!Step(mon, e) /\ hist' = Append(hist, e)
+VARIABLES mon, hist, fk, fv
+Init == /\ mon = A!MonInit(Vars, {}) /\ hist = <<>>
+        /\ fk \in (IF Focus THEN {S \in SUBSET Keys : Cardinality(S) = 2} ELSE {Keys})
+        /\ fv \in (IF Focus THEN {S \in SUBSET Vals : Cardinality(S) = 2} ELSE {Vals})
+Add(e) == mon' = A!Step(mon, e) /\ hist' = Append(hist, e) /\ UNCHANGED <<fk, fv>>
 Bound(v) == mon.vars[v] # 0
 Next ==
   /\ Len(hist) < MaxOps
   /\ \/ \E v \in Vars : Add([op |-> "new", var |-> v, pairs |-> Lit])
      \/ \E v \in Vars : Add([op |-> "newf", var |-> v, pairs |-> Lit])
      \/ \E v \in Vars, s \in Vars : v # s /\ Bound(s) /\ Add([op |-> "alias", var |-> v, src |-> s])
-     \/ \E v \in Vars, k \in Keys, x \in Vals, side \in {"right", "left"} :
+     \/ \E v \in Vars, k \in fk, x \in fv, side \in {"right", "left"} :
           Bound(v) /\ (k \o "|" \o x) \notin NoPair /\ Add([op |-> "add", var |-> v, k |-> k, v |-> x, side |-> side])
-     \/ \E v \in Vars, k \in Keys : Bound(v) /\ Add([op |-> "find", var |-> v, k |-> k, obs |-> A!Lookup(A!Cell(mon, v), k)])
-     \/ \E v \in Vars, k \in Keys : Bound(v) /\ Add([op |-> "remove", var |-> v, k |-> k])
+     \/ \E v \in Vars, k \in fk : Bound(v) /\ Add([op |-> "find", var |-> v, k |-> k, obs |-> A!Lookup(A!Cell(mon, v), k)])
+     \/ \E v \in Vars, k \in fk : Bound(v) /\ Add([op |-> "remove", var |-> v, k |-> k])
      \/ \E v \in Vars : Bound(v) /\ Add([op |-> "size", var |-> v, obs |-> Len(A!Cell(mon, v))])
      \/ \E v \in Vars : Bound(v) /\ Add([op |-> "each", var |-> v, obs |-> A!Cell(mon, v)])
 Good == mon.bad = "ok"
